@@ -103,7 +103,7 @@ P = {
  TECH + ", frame conditions"),
 }
 NA = {
-"C05": "the deciding function Response.EntityWriter ranks by float q-values through three nested appends and falls back through a map-iterating substring lookup; the ranking contract of insertMime over Reals could not be discharged by any installed solver and the response Content-Type is set by the registered accessor (user code). matchesAccept (router side) is proved under C01; totality of sortedMimes/insertMime/accessorAt under C02/C16; D3 and D15 were found and fixed on the way. Not claimed.",
+"C05": "the deciding function Response.EntityWriter ranks by float q-values through insertMime and sortedMimes and falls back through accessorAt's map-ordered substring lookup. What is proved and counted under other properties: insertMime's placement (behind every entry of at least its quality, before the first entry of lower quality, the others keep their order; C02), totality of sortedMimes (C02), the router-side admission matchesAccept (C01), accessorAt's functional contract (C16). What did not discharge: that the placement keeps a list sorted (neither inside insertMime across its three nested appends nor, from its postconditions, in sortedMimes), so no ordering contract for sortedMimes and none for EntityWriter; the response Content-Type itself is written by the registered accessor (user code). D3 and D15 were found and fixed on the way. Not claimed.",
 }
 
 checks=[]
